@@ -215,6 +215,63 @@ func runC09(c *Ctx) {
 					if abuf == nil || !errDom(ci.Block()) {
 						R.Fail("C09.R1", "Column.Write:append-after-encode-error", c.at(ci), "nothing is appended when encoding failed", "the length is appended on a path where Encode's error was not tested")
 					}
+					// the length may be computed by a small function of the package that is handed the buffer
+					// (fieldLength(encoded)): its returns are read in its own terms
+					if hc, isCall := core.StripConv(ci.Common().Args[1]).(*ssa.Call); isCall {
+						if h := core.StaticCallee(hc); h != nil && c.P.InPkg(h, "wire") && h.Blocks != nil {
+							var hp *ssa.Parameter
+							for i, a := range hc.Call.Args {
+								if a == abuf && i < len(h.Params) {
+									hp = h.Params[i]
+								}
+							}
+							if hp != nil {
+								R.Analysed(fname(h))
+								one := func(v ssa.Value, at *ssa.BasicBlock, viaEdge func(e edge) bool) {
+									v = core.StripConv(v)
+									onNil := anyDominates(nilEdges(hp, true), at)
+									onNonNil := anyDominates(nilEdges(hp, false), at)
+									for _, e := range nilEdges(hp, true) {
+										if viaEdge(e) {
+											onNil = true
+										}
+									}
+									for _, e := range nilEdges(hp, false) {
+										if viaEdge(e) {
+											onNonNil = true
+										}
+									}
+									if k, ok := core.ConstInt(v); ok && k == -1 {
+										if onNil {
+											okNull = true
+										} else {
+											extra = "-1 outside the nil-buffer edge"
+										}
+										return
+									}
+									if x, ok := core.IsLenOf(v); ok && x == ssa.Value(hp) {
+										okLen = true
+										if !onNonNil {
+											extra = "len(buffer) is returned on a path on which the buffer may be nil"
+										}
+										return
+									}
+									extra = v.String()
+								}
+								for _, r := range returns(h) {
+									if ph, isPhi := r.Results[0].(*ssa.Phi); isPhi {
+										for i, e := range ph.Edges {
+											pred := ph.Block().Preds[i]
+											one(e, pred, func(ed edge) bool { return ed.from == pred && ed.to() == ph.Block() })
+										}
+										continue
+									}
+									one(r.Results[0], r.Block(), func(edge) bool { return false })
+								}
+								continue
+							}
+						}
+					}
 					var ls []ssa.Value
 					leaves(ci.Common().Args[1], map[ssa.Value]bool{}, &ls)
 					ph, isPhi := ci.Common().Args[1].(*ssa.Phi)
